@@ -315,7 +315,11 @@ func gitOp(g *gitx.Git, dir, op, tgtBranch, tgtID string) gitx.Result {
 
 func lossKind(l wtlab.Loss, cur, tgt gen.Tree) string {
 	if l.Kind == "untracked" {
-		return "untracked@" + wtlab.Rel(l.Path, cur, tgt)
+		rel := wtlab.Rel(l.Path, cur, tgt)
+		if strings.HasPrefix(rel, "deleted") {
+			rel = "deleted" // deleted-t-dir / deleted-t-file-above: the target also puts a directory / file around the path
+		}
+		return "untracked@" + rel
 	}
 	return l.Kind
 }
@@ -484,8 +488,11 @@ func isRefusal(err error) bool {
 		errors.Is(err, git.ErrNonFastForwardUpdate) || errors.Is(err, git.ErrFastForwardMergeNotPossible)
 }
 
-// lossWhat folds the observed difference into: staged-change-discarded | overwritten | removed | recreated.
+// lossWhat folds the observed difference into: staged-change-discarded | overwritten | removed | recreated | lost (untracked files).
 func lossWhat(l wtlab.Loss) string {
+	if l.Kind == "untracked" {
+		return "lost" // overwritten, replaced by a directory or removed: the untracked content is gone
+	}
 	switch {
 	case strings.HasPrefix(l.What, "index-entry-"):
 		return "staged-change-discarded"
